@@ -152,3 +152,8 @@ EXTRA["C06"] = EXTRA.get("C06", []) + [
     M("p2sh-witness-extra-scriptsig", "script.py", "                    if (\n                        len(stack) > 0\n                        and len(redeem_commands) == 2\n                        and redeem_commands[0] == 0\n                        and isinstance(redeem_commands[1], bytes)\n                        and len(redeem_commands[1]) in (20, 32)\n                    ):\n                        print(\"extra items in the ScriptSig of a p2sh witness program\")\n                        return False\n",
       "", ["C06.14"], "junk in front of the redeem script of a p2sh witness program"),
 ]
+
+EXTRA["C05"] = EXTRA.get("C05", []) + [
+    M("ext-flag-counts-annex", "tx.py", "            num_items = len(tx_in.witness)\n            if tx_in.witness.has_annex():\n                num_items -= 1\n            if num_items > 1:\n",
+      "            if len(tx_in.witness) > 1:\n", ["C05.11"], "key path + annex hashed as script path (F36 undone)"),
+]
